@@ -2,19 +2,27 @@ package regs
 
 // Second sub-domain of C17: "When external connections are disabled no socket is served,
 // and a socket directory created by NRI is accessible only to the runtime's own user."
+//
+// The options of adaptation.New are part of the case, in the order they are given: the
+// statement does not make "disabled" depend on where WithDisabledExternalConnections()
+// stands relative to WithSocketPath().
 
 import (
 	"context"
 	"fmt"
 	"net"
 	"os"
+	"io/fs"
 	"path/filepath"
+	"sort"
+	"strings"
 	"sync"
 	"syscall"
 	"time"
 
 	"github.com/containerd/nri/pkg/adaptation"
 	"github.com/containerd/nri/pkg/api"
+	"github.com/containerd/ttrpc"
 	"pgregory.net/rapid"
 
 	"nriverif/ev"
@@ -29,12 +37,98 @@ var (
 	umaskMu sync.Mutex
 )
 
+// Option tokens of a socket case (C17Case.Opts), applied to adaptation.New in list order.
+const (
+	optSocket    = "socket"     // WithSocketPath(<scratch>/e*/m*/nri.sock)
+	optSocketAlt = "socket-alt" // WithSocketPath(<scratch>/e*/a*/nri.sock), a second path
+	optDisabled  = "disabled"   // WithDisabledExternalConnections()
+	optPlugins   = "plugins"    // WithPluginPath(<scratch>/no-plugins)
+	optConf      = "conf"       // WithPluginConfigPath(<scratch>/no-conf)
+	optTTRPC     = "ttrpc"      // WithTTRPCOptions(no client options, no server options)
+)
+
+// normOpts returns the option list of a socket case. Cases without one (the complete
+// umask x directory sweep, older replay files) use the conventional order: socket path,
+// plugin path, config path, and WithDisabledExternalConnections last. The default socket
+// path (/var/run/nri), plugin path and config path are never left in place: a list without
+// one of the three gets it prepended.
+func normOpts(c C17Case) (opts []string, disabled bool, ok bool) {
+	if len(c.Opts) == 0 {
+		opts = []string{optSocket, optPlugins, optConf}
+		if c.Disabled {
+			opts = append(opts, optDisabled)
+		}
+		return opts, c.Disabled, true
+	}
+	has := map[string]bool{}
+	for _, o := range c.Opts {
+		switch o {
+		case optSocket, optSocketAlt, optDisabled, optPlugins, optConf, optTTRPC:
+			has[o] = true
+		default:
+			return nil, false, false
+		}
+	}
+	opts = append([]string{}, c.Opts...)
+	if !has[optConf] {
+		opts = append([]string{optConf}, opts...)
+	}
+	if !has[optPlugins] {
+		opts = append([]string{optPlugins}, opts...)
+	}
+	if !has[optSocket] && !has[optSocketAlt] {
+		opts = append([]string{optSocket}, opts...)
+	}
+	return opts, has[optDisabled], true
+}
+
+// socketAfterDisabled tells whether a WithSocketPath option follows a
+// WithDisabledExternalConnections option in the list.
+func socketAfterDisabled(opts []string) bool {
+	seen := false
+	for _, o := range opts {
+		switch o {
+		case optDisabled:
+			seen = true
+		case optSocket, optSocketAlt:
+			if seen {
+				return true
+			}
+		}
+	}
+	return false
+}
+
 func genSock(t *rapid.T) C17Case {
 	c := C17Case{Kind: "sock"}
 	c.Umask = rapid.SampledFrom(umasks).Draw(t, "umask")
 	c.Existing = rapid.SliceOfN(rapid.SampledFrom(existingModes), 0, 2).Draw(t, "existing")
 	c.Missing = rapid.SampledFrom([]int{0, 1, 2, 2, 3, 3}).Draw(t, "missing")
-	c.Disabled = rapid.IntRange(0, 3).Draw(t, "disabled") == 0
+	toks := []string{optSocket, optPlugins, optConf}
+	switch rapid.SampledFrom([]string{"none", "none", "alt", "again", "alt-only"}).Draw(t, "second-socket") {
+	case "alt":
+		toks = append(toks, optSocketAlt)
+	case "again":
+		toks = append(toks, optSocket)
+	case "alt-only":
+		toks[0] = optSocketAlt
+	}
+	if rapid.Bool().Draw(t, "ttrpc") {
+		toks = append(toks, optTTRPC)
+	}
+	// half of the socket cases disable external connections, a third of those twice
+	switch rapid.SampledFrom([]int{0, 1, 0, 1, 2, 0}).Draw(t, "disabled") {
+	case 1:
+		toks = append(toks, optDisabled)
+	case 2:
+		toks = append(toks, optDisabled, optDisabled)
+	}
+	c.Opts = rapid.Permutation(toks).Draw(t, "option-order")
+	for _, o := range c.Opts {
+		if o == optDisabled {
+			c.Disabled = true
+		}
+	}
 	return c
 }
 
@@ -46,13 +140,16 @@ type sockDir struct {
 }
 
 type sockHistory struct {
-	Socket string    `json:"socket"`
-	Dirs   []sockDir `json:"dirs"`
-	Notes  []string  `json:"notes,omitempty"`
+	Options []string  `json:"options"`
+	Sockets []string  `json:"configured_socket_paths"`
+	Served  []string  `json:"socket_files_after_start,omitempty"`
+	Dirs    []sockDir `json:"dirs"`
+	Notes   []string  `json:"notes,omitempty"`
 }
 
 func runSock(c C17Case) (o ev.Outcome) {
-	if c.Missing < 0 || c.Missing > 3 || len(c.Existing) > 3 || c.Umask&^0o777 != 0 || c.Umask&0o700 != 0 {
+	optList, disabled, ok := normOpts(c)
+	if !ok || c.Missing < 0 || c.Missing > 3 || len(c.Existing) > 3 || len(optList) > 12 || c.Umask&^0o777 != 0 || c.Umask&0o700 != 0 {
 		// a umask that removes the owner's own bits makes MkdirAll fail half way: not in the domain
 		return ev.Outcome{Excluded: "sock-out-of-domain"}
 	}
@@ -62,8 +159,29 @@ func runSock(c C17Case) (o ev.Outcome) {
 		fmt.Sprintf("sock:umask-%03o", c.Umask),
 		fmt.Sprintf("sock:existing-%d", len(c.Existing)),
 	}
-	if c.Disabled {
+	if len(c.Opts) > 0 {
+		o.Classes = append(o.Classes, "sock:option-order")
+	}
+	nSock := map[string]int{}
+	for _, t := range optList {
+		nSock[t]++
+	}
+	if nSock[optSocket]+nSock[optSocketAlt] > 1 {
+		o.Classes = append(o.Classes, "sock:socket-path-given-twice")
+	}
+	if disabled {
 		o.Classes = append(o.Classes, "sock:disabled")
+		if nSock[optDisabled] > 1 {
+			o.Classes = append(o.Classes, "sock:disabled-given-twice")
+		}
+		// Non-trivial (added for the option order): connections are disabled and a socket path
+		// option still follows.
+		if socketAfterDisabled(optList) {
+			o.NonTrivial = true
+			o.Classes = append(o.Classes, "sock:disabled-before-socket-path")
+		} else {
+			o.Classes = append(o.Classes, "sock:disabled-after-socket-path")
+		}
 	} else {
 		o.Classes = append(o.Classes, "sock:listening")
 		// Non-trivial: a created directory chain of depth >= 2 under a permissive umask.
@@ -75,7 +193,7 @@ func runSock(c C17Case) (o ev.Outcome) {
 
 	root := fx.ShortDir() // /tmp/nvXXXXXXXX, 0700, pre-existing as far as Start is concerned
 	defer os.RemoveAll(root)
-	h := &sockHistory{}
+	h := &sockHistory{Options: optList}
 	fail := func(format string, a ...any) ev.Outcome {
 		o.Fail = fmt.Sprintf(format, a...)
 		o.History = h
@@ -94,27 +212,46 @@ func runSock(c C17Case) (o ev.Outcome) {
 		}
 		dirs = append(dirs, sockDir{Path: dir})
 	}
+	before := map[string]bool{}
 	for i := range dirs {
 		st, err := os.Stat(dirs[i].Path)
 		if err != nil {
 			return fail("harness: %v", err)
 		}
 		dirs[i].Before = st.Mode().String()
+		before[dirs[i].Path] = true
 	}
+	mainDir, altDir := dir, dir
 	for i := 0; i < c.Missing; i++ {
-		dir = filepath.Join(dir, fmt.Sprintf("m%d", i))
-		dirs = append(dirs, sockDir{Path: dir, Created: true})
+		mainDir = filepath.Join(mainDir, fmt.Sprintf("m%d", i))
+		altDir = filepath.Join(altDir, fmt.Sprintf("a%d", i))
 	}
-	socket := filepath.Join(dir, "nri.sock")
-	h.Socket = socket
+	paths := map[string]string{
+		optSocket:    filepath.Join(mainDir, "nri.sock"),
+		optSocketAlt: filepath.Join(altDir, "alt.sock"),
+	}
+	var configured []string
+	for _, t := range []string{optSocket, optSocketAlt} {
+		if nSock[t] > 0 {
+			configured = append(configured, paths[t])
+		}
+	}
+	h.Sockets = configured
 
-	opts := []adaptation.Option{
-		adaptation.WithSocketPath(socket),
-		adaptation.WithPluginPath(filepath.Join(root, "no-plugins")),
-		adaptation.WithPluginConfigPath(filepath.Join(root, "no-conf")),
-	}
-	if c.Disabled {
-		opts = append(opts, adaptation.WithDisabledExternalConnections())
+	var opts []adaptation.Option
+	for _, t := range optList {
+		switch t {
+		case optSocket, optSocketAlt:
+			opts = append(opts, adaptation.WithSocketPath(paths[t]))
+		case optDisabled:
+			opts = append(opts, adaptation.WithDisabledExternalConnections())
+		case optPlugins:
+			opts = append(opts, adaptation.WithPluginPath(filepath.Join(root, "no-plugins")))
+		case optConf:
+			opts = append(opts, adaptation.WithPluginConfigPath(filepath.Join(root, "no-conf")))
+		case optTTRPC:
+			opts = append(opts, adaptation.WithTTRPCOptions([]ttrpc.ClientOpts{}, []ttrpc.ServerOpt{}))
+		}
 	}
 	syncFn := func(ctx context.Context, cb adaptation.SyncCB) error {
 		_, err := cb(ctx, nil, nil)
@@ -135,14 +272,29 @@ func runSock(c C17Case) (o ev.Outcome) {
 		defer a.Stop()
 	}
 	if err != nil {
-		// Nothing in this domain may make Start fail (short path, writable scratch root);
+		// Nothing in this domain may make Start fail (short paths, writable scratch root);
 		// without a started adaptation neither clause can be judged.
-		return fail("Start failed for socket path %s under umask %03o: %v", socket, c.Umask, err)
+		return fail("Start failed with options %v under umask %03o: %v", optList, c.Umask, err)
 	}
 
+	// What is below the scratch root now: socket files, and directories that were not there.
+	var served []string
+	_ = filepath.WalkDir(root, func(p string, d fs.DirEntry, err error) error {
+		if err != nil {
+			return nil
+		}
+		if d.Type()&fs.ModeSocket != 0 {
+			served = append(served, p)
+		}
+		if d.IsDir() && !before[p] {
+			dirs = append(dirs, sockDir{Path: p, Created: true})
+		}
+		return nil
+	})
+	sort.Strings(served)
+	h.Served = served
 	for i := range dirs {
-		st, err := os.Lstat(dirs[i].Path)
-		if err == nil {
+		if st, err := os.Lstat(dirs[i].Path); err == nil {
 			dirs[i].After = st.Mode().String()
 		} else {
 			dirs[i].After = "absent"
@@ -150,32 +302,43 @@ func runSock(c C17Case) (o ev.Outcome) {
 	}
 	h.Dirs = dirs
 
-	if c.Disabled {
-		// "When external connections are disabled no socket is served"
-		if _, err := os.Lstat(socket); err == nil {
-			return fail("external connections are disabled but %s exists after Start", socket)
+	if disabled {
+		// "When external connections are disabled no socket is served": no socket file at any
+		// configured path (nor anywhere else below the scratch root), dialling fails, and so no
+		// plugin can register.
+		for _, p := range configured {
+			if _, err := os.Lstat(p); err == nil {
+				return fail("external connections are disabled (options in order: %s) but %s exists after Start%s",
+					strings.Join(optList, ", "), p, tryRegister(p))
+			}
+			if conn, err := net.DialTimeout("unix", p, time.Second); err == nil {
+				conn.Close()
+				return fail("external connections are disabled (options in order: %s) but dialling %s succeeds%s",
+					strings.Join(optList, ", "), p, tryRegister(p))
+			}
 		}
-		if conn, err := net.DialTimeout("unix", socket, time.Second); err == nil {
-			conn.Close()
-			return fail("external connections are disabled but dialling %s succeeds", socket)
+		if len(served) > 0 {
+			return fail("external connections are disabled (options in order: %s) but Start created the socket %s", strings.Join(optList, ", "), served[0])
 		}
 	} else {
-		st, err := os.Lstat(socket)
-		if err != nil || st.Mode()&os.ModeSocket == 0 {
-			return fail("Start returned without error but there is no socket at %s (%v)", socket, err)
+		// Which of several WithSocketPath options counts is not the statement's business; one of
+		// the configured paths has to be served for the directory clause to be exercised at all.
+		found := false
+		for _, p := range configured {
+			if st, err := os.Lstat(p); err == nil && st.Mode()&os.ModeSocket != 0 {
+				found = true
+			}
+		}
+		if !found {
+			return fail("Start returned without error but there is no socket at any configured path %v", configured)
 		}
 	}
 
 	for _, d := range dirs {
 		st, err := os.Lstat(d.Path)
-		if d.Created && !c.Disabled && (err != nil || !st.IsDir()) {
-			return fail("Start did not create the socket directory %s (%v)", d.Path, err)
-		}
 		if err != nil {
-			if !d.Created {
-				h.Notes = append(h.Notes, fmt.Sprintf("pre-existing directory %s: %v", d.Path, err))
-			}
-			continue // disabled: nothing has to be created; whatever was created is judged below
+			h.Notes = append(h.Notes, fmt.Sprintf("directory %s: %v", d.Path, err))
+			continue
 		}
 		if d.Created {
 			// "a socket directory created by NRI is accessible only to the runtime's own user"
@@ -193,6 +356,31 @@ func runSock(c C17Case) (o ev.Outcome) {
 		}
 	}
 	return o
+}
+
+// tryRegister makes the consequence of a served socket explicit in a verdict: a well-formed
+// raw peer connects and registers; the text says how far it got.
+func tryRegister(socket string) string {
+	p, err := newRawPeer(socket, 0, Peer{Name: "intruder", Idx: "42", Mask: 0})
+	if err != nil {
+		return ""
+	}
+	defer p.teardown()
+	p.serve(time.Now())
+	go p.script(nil)
+	select {
+	case <-p.settledC:
+	case <-time.After(2 * time.Second):
+	}
+	r := p.snapshot()
+	switch {
+	case r.NSync > 0:
+		return "; a plugin connected to it, registered and was synchronized"
+	case r.Registered && r.RegErr == "":
+		return "; a plugin connected to it and its registration was accepted"
+	default:
+		return "; a plugin could connect to it"
+	}
 }
 
 func modeOf(m int) os.FileMode {
